@@ -55,7 +55,7 @@ PROOF_TIMEOUT = {"quick": 2000, "thorough": 3000}
 EXHAUSTIVE = False
 MANIFEST = {
     "category": "proof",
-    "text": "Real-number (ideal) instance only; C09_body_<Planet>_unconditional (7 planets): the VSOP87, Earth, nutation, obliquity and Sun callee hypotheses of the body theorems are discharged with the imported theorems of properties C07 and C08, the range assumptions (|T| <= 40, |beta|, |B| <= 25 deg) are derived, RA in [0,360), Dec in [-90,90], elongation in [0,180]; only Epoch.__isub__ = Epoch(j1) (calendar round trip, C02) remains a premise. nothing is proved about binary64 rounding or about the headline tolerances (0.02 / 1e-4 degree agreement, Mercury/Venus maxima: searched). Proved about the GENERATED code, by call-by-value symbolic evaluation with callees blocked and given as hypotheses ONLY at the arguments really passed (PARTIAL CORRECTNESS: conditional on those callees returning values of the stated shape): the whole body of each of the seven <Planet>.geocentric_position (planet at epoch and epoch - tau, Earth at the caller's epoch, lambda/beta by atan2, aberration k = 20.49552 with the e/pi polynomials, FK5, nutation, ecliptical2equatorial NOT abstracted (C05 closed form) so RA/Dec are the rotation of (LAMG, BETG) by the true obliquity, elongation acos(cos B cos(L - Lsun)) with the Sun provably taken at the shifted epoch = known finding), under |T| <= 40 cy, |beta| <= 25 deg, |B| <= 25 deg assumed of the callee outputs; Minor.geocentric_position for e < 0.98 (kepler_equation hypotheses at the two mean anomalies used, shown satisfiable from C11's characterisation for 0 <= e < 1) and for 0.98 <= e, |e-1| >= tol (conditional on the two _near_parabolic calls returning - they may raise: known finding); Minor.heliocentric_ecliptical_position; Minor.set; Pluto.geocentric_position (year gate, two passes; Pluto.geometric_heliocentric_position abstracted). The closed forms are tied to spec theorems: direction of the vector, LAMG/BETG = geometric direction + corrections (mod 360) with corrections <= 0.02 deg (nutation bound assumed), elongation in [0,180], Cauchy-Schwarz for the minor-body elongation. JDE2000 = 2451545 proved. Not covered by proof: the parabolic branch (loop), the Pluto series, satisfiability of the VSOP/nutation/Sun callee hypotheses. Bit-exact correspondence on planet/Pluto/Minor calls; search oracle recomputing every direction from the library's own heliocentric vectors (planets), the re-evaluated Meeus series (Pluto) and an independent two-body propagation (minor bodies, incl. a fixed grid of exactly parabolic bodies).",
+    "text": "Real-number (ideal) instance only; C09_body_<Planet>_unconditional (7 planets): the VSOP87, Earth, nutation, obliquity and Sun callee hypotheses of the body theorems are discharged with the imported theorems of properties C07 and C08, the range assumptions (|T| <= 40, |beta|, |B| <= 25 deg) are derived, RA in [0,360), Dec in [-90,90], elongation in [0,180]; only Epoch.__isub__ = Epoch(j1) (calendar round trip, C02) remains a premise in the quick tier; in the THOROUGH tier C09_body_<Planet>_total discharges it too with C02's Epoch_sub_ideal (j1 = j - tau, tau the code's light time, 0 <= tau <= 1 d): no callee premise left. nothing is proved about binary64 rounding or about the headline tolerances (0.02 / 1e-4 degree agreement, Mercury/Venus maxima: searched). Proved about the GENERATED code, by call-by-value symbolic evaluation with callees blocked and given as hypotheses ONLY at the arguments really passed (PARTIAL CORRECTNESS: conditional on those callees returning values of the stated shape): the whole body of each of the seven <Planet>.geocentric_position (planet at epoch and epoch - tau, Earth at the caller's epoch, lambda/beta by atan2, aberration k = 20.49552 with the e/pi polynomials, FK5, nutation, ecliptical2equatorial NOT abstracted (C05 closed form) so RA/Dec are the rotation of (LAMG, BETG) by the true obliquity, elongation acos(cos B cos(L - Lsun)) with the Sun provably taken at the shifted epoch = known finding), under |T| <= 40 cy, |beta| <= 25 deg, |B| <= 25 deg assumed of the callee outputs; Minor.geocentric_position for e < 0.98 (kepler_equation hypotheses at the two mean anomalies used, shown satisfiable from C11's characterisation for 0 <= e < 1) and for 0.98 <= e, |e-1| >= tol (conditional on the two _near_parabolic calls returning - they may raise: known finding); Minor.heliocentric_ecliptical_position; Minor.set; Pluto.geocentric_position (year gate, two passes; Pluto.geometric_heliocentric_position abstracted). The closed forms are tied to spec theorems: direction of the vector, LAMG/BETG = geometric direction + corrections (mod 360) with corrections <= 0.02 deg (nutation bound assumed), elongation in [0,180], Cauchy-Schwarz for the minor-body elongation. JDE2000 = 2451545 proved. Not covered by proof: the parabolic branch (loop), the Pluto series, satisfiability of the VSOP/nutation/Sun callee hypotheses. Bit-exact correspondence on planet/Pluto/Minor calls; search oracle recomputing every direction from the library's own heliocentric vectors (planets), the re-evaluated Meeus series (Pluto) and an independent two-body propagation (minor bodies, incl. a fixed grid of exactly parabolic bodies).",
     "technique": "call-by-value symbolic evaluation (pyrun9) of the regenerated model in the real-number instance with blocked callees + real analysis (atan2/acos lemmas, Cauchy-Schwarz, interval) + bit-exact differential correspondence + oracle search",
     "design_ref": "8/C09",
 }
@@ -68,6 +68,7 @@ EXPLANATION = ("Ideal (real-number) instance, partial correctness with abstracte
                "returning), Minor.heliocentric_ecliptical_position and Pluto.geocentric_position are evaluated the same way. The parabolic loop, "
                "the Pluto series, and the numerical agreement (0.02 / 1e-4 degree) with vectors recomputed from the library are searched, not proved.")
 CLAUSES = {
+    "planets, NO callee premise (all 7; ideal instance; THOROUGH TIER ONLY)": "proved [C09_body_<Planet>_total, files C09_t_*.v, thorough tier only because the imported C02_ctor_ideal.v costs 5-6 min per build directory]: for every epoch j from one day after the start of year -2000 to year 6000, with tau = 0.0057755183 |planet(j) - Earth(j)| the light time the code computes and j1 = j - tau (0 <= tau <= 1 day from the distance envelope Delta <= 2 (r + r0)), Epoch.__isub__(Epoch(j), tau) = Epoch(j1) is proved with property C02's Epoch_sub_ideal (the Epoch constructor's calendar round trip is exact over the reals), every other callee as in C09_body_<Planet>_unconditional: geocentric_position(j) = (RAG, DECG, ELONG) with 0 <= RA < 360, -90 <= Dec <= 90, 0 <= elongation <= 180 and no hypothesis other than the range of j. The quick tier keeps C09_body_<Planet>_unconditional, whose single explicit premise is that Epoch.__isub__ equation",
     "planets, callee hypotheses discharged (all 7; ideal instance; epochs j, j1 in years -2000..6000)": "proved [C09_body_<Planet>_unconditional, files C09_u_*.v generated from one template]: with property C07's theorems (VSOP87 evaluator = direct sum over the regenerated tables, amplitude envelopes of the B and R series checked by the kernel) and property C08's (nutation series structure and amplitude, true obliquity = mean + nutation, Sun.apparent_geocentric_position = Earth reflected) imported into this build, the planet at j and j1, the Earth at j, nutation / true obliquity / Sun at j1 are SHOWN to return the shapes assumed by C09_body_<Planet>, with |T| <= 40, |heliocentric latitude| <= 25 deg and |geocentric latitude betG| <= 25 deg DERIVED (amplitude sums + separation of the orbits: projected distance >= |r cos b - r0 cos b0|), |dpsi| <= 21 arcsec, 22 < obliquity < 25 deg; conclusion: geocentric_position(j) = (RAG, DECG, ELONG) closed forms with 0 <= RA < 360, -90 <= Dec <= 90, 0 <= elongation <= 180. ONE premise about a callee is left: Epoch.__isub__(Epoch(j), tau) = Epoch(j1) - the Epoch constructor recomputes the JDE through the calendar (get_full_date, _compute_jde), whose round trip over the reals belongs to property C02 and is proved nowhere; j1 is otherwise arbitrary in the year range. Nothing about binary64 rounding",
     "planets (all 7 generated bodies, whole function; PARTIAL CORRECTNESS, ideal instance): IF planet(j), planet(j1), Earth(j), Epoch.__isub__(j, tau)=j1, nutation(j1), obliquity(j1), Sun(j1) return values of the stated shape, with tau = 0.0057755183*|planet(j) - Earth(j)|, and |T(j1)| <= 40 cy, |beta| <= 25 deg, |B(j1)| <= 25 deg, THEN the body returns (RAG, DECG, ELONG): lambda = atan2(y,x), beta = atan2(z, sqrt(x^2+y^2)) of planet(j1) - Earth(j), aberration k = 20.49552 with the e, pi polynomials, FK5, nutation, ecliptical2equatorial (closed form, not abstracted), elongation acos(cos B cos(L - Lsun(j1)))": "proved [ideal, generated code, callees abstracted at the used arguments only: C09_body_<Planet>]; satisfiability of the VSOP87/nutation/Sun callee hypotheses NOT proved (shapes observed bit-exactly in correspondence)",
     "planets: lambda, beta of the generated body are the direction of (x,y,z) (atan2 quadrants), x or y nonzero": "proved [generated closed forms -> spec: C09_body_direction]",
@@ -107,6 +108,13 @@ def proof_files(tier):
     global THEOREMS
     upl = list(PLANETS) if tier == "thorough" else list(U_QUICK)
     THEOREMS = BASE_THEOREMS + ["C09_body_%s_unconditional" % p for p in upl]
+    total = []
+    if tier == "thorough":
+        # C09_body_<Planet>_total: no callee premise at all (Epoch.__isub__ discharged with C02's Epoch_sub_ideal).
+        # Thorough only: C02_ctor_ideal.v costs 5-6 min on one core + 16 shards of ~1 min per build directory.
+        THEOREMS = THEOREMS + ["C09_body_%s_total" % p for p in PLANETS]
+        total = (["../C02/C02_ctor_spec.v"] + ["../C02/C02_ctor_rt_%02d.v" % k for k in range(16)]
+                 + ["../C02/C02_ctor_ideal.v", "C09_t_body.v"] + ["C09_t_%s.v" % p for p in PLANETS])
     return (["C09_spec.v", "C09_minor.v", "C09_A_defs.v", "C09_A_tac.v", "C09_A_reduce.v", "C09_A_construct.v",
              "C09_A_ops.v", "C09_angle.v", "C09_geo.v", "C09_tac.v", "C09_E_angle.v", "C09_E_run.v", "C09_E_ecl.v",
              "C09_body.v", "C09_J_tac.v", "C09_J_jde.v",
@@ -117,7 +125,8 @@ def proof_files(tier):
             # imported proof files of C07 / C08 (compiled inside this property's build) and the unconditional statements
             + ["../C07/" + f for f in C07_DEPS] + ["../C07/C07_mono_%s.v" % p.lower() for p in upl]
             + ["../C08/" + f for f in C08_DEPS]
-            + ["C09_u_vsop.v", "C09_u_geo.v", "C09_u_body.v"] + ["C09_u_%s.v" % p for p in upl])
+            + ["C09_u_vsop.v", "C09_u_geo.v", "C09_u_body.v"] + ["C09_u_%s.v" % p for p in upl]
+            + total)
 
 
 # ----------------------------------------------------------------------------------------------
@@ -507,6 +516,53 @@ def parabolic_bodies(rng, n):
     return out
 
 
+def far_grid():
+    """deterministic corner of the property's quantifier that random sampling rarely hits: small perihelion
+    distance, years to decades from perihelion, all three regimes (e = 1.0 exactly: the Barker iteration needs
+    many steps there; near-parabolic; elliptic).  Orientation varies deterministically with the grid point."""
+    out = []
+    T0 = 2451545.0
+    k = 0
+    for e, qs in ((1.0, (0.1, 0.12, 0.15, 0.2, 0.3, 1.0, 5.0, 30.0)),
+                  (1.0 - 1e-9, (0.1, 0.15, 0.3)), (0.999, (0.1, 0.15, 0.3)), (0.98, (0.1, 0.15, 0.3)),
+                  (0.98 - 1e-9, (0.1, 0.15, 0.3)), (0.9, (0.1, 0.15, 0.3)), (0.5, (0.1, 0.15, 0.3))):
+        for q in qs:
+            for yrs in (-49.9, -30.0, -10.0, -1.0, 1.0, 10.0, 30.0, 49.9):
+                k += 1
+                inc, om, w = (37.0 * k) % 180.0, (101.0 * k) % 360.0, (53.0 * k) % 360.0
+                out.append(((q, e, inc, om, w, T0), T0 + round(yrs * 365.25, 2)))
+    return out
+
+
+ENCKE = (2.2091404 * (1.0 - 0.8502196), 0.8502196, 11.94524, 334.75006, 186.23352, 2448193.04502)
+HALLEY = (0.5870992, 0.9672725, 162.23932, 58.14397, 111.84658, 2446470.95175)
+
+
+def check_set_sequence(I, el1, el2, jde):
+    """Minor(el1) followed by set(el2) must behave exactly like Minor(el2): set() has to refresh every
+    derived constant (bit-for-bit comparison of geocentric_position / heliocentric_ecliptical_position)"""
+    def run(body, meth):
+        try:
+            return tuple(float(x) for x in getattr(body, meth)(I.Epoch(jde)))
+        except Exception as ex:
+            return ("raises", type(ex).__name__)
+    q, e, inc, om, w, tp = el2
+    tag = "Minor(%s).set(%s) at JDE %r" % (", ".join(repr(x) for x in el1), ", ".join(repr(x) for x in el2), jde)
+    try:
+        body = mk_minor(I, el1)
+        body.set(q, e, I.Angle(inc), I.Angle(om), I.Angle(w), I.Epoch(tp))
+        fresh = mk_minor(I, el2)
+    except Exception as ex:
+        return [("minor-raises", "%s raises %r" % (tag, ex))]
+    out = []
+    for meth in ("geocentric_position", "heliocentric_ecliptical_position"):
+        a, b = run(body, meth), run(fresh, meth)
+        if a != b:
+            out.append(("minor-set-stale-state", "%s: %s = %r after set(), but %r for a freshly constructed Minor with the same elements"
+                        % (tag, meth, a, b)))
+    return out
+
+
 def minor_expr(el, jde, meth="geocentric_position"):
     q, e, inc, om, w, tp = el
     return "Minor(%r, %r, Angle(%r), Angle(%r), Angle(%r), Epoch(%r)).%s(Epoch(%r))" % (q, e, inc, om, w, tp, meth, jde)
@@ -628,8 +684,22 @@ def search(rng, tier, deep):
         jde = el[5] + math.copysign(rng.uniform(5.0, 50.0) * 365.25, rng.random() - 0.5)
         n += 1; nontriv += 1
         add(check_minor(I, el, jde, stats_extra), ["Minor", list(el), jde], "minor %s %r" % (" ".join(repr(x) for x in el), jde))
+    # always: small perihelion distance years to decades from perihelion, all regimes (fixed grid, every run)
+    for el, jde in far_grid():
+        n += 1; nontriv += 1
+        add(check_minor(I, el, jde, stats_extra), ["Minor", list(el), jde], "minor %s %r" % (" ".join(repr(x) for x in el), jde))
+    # call sequences: construct with one orbit, set() another; must equal a fresh object (bit for bit)
+    pairs = [(ENCKE, HALLEY, 2448170.5), (HALLEY, ENCKE, 2446500.5)]
+    for _ in range(40 if full else 6):
+        el1, _j = gen_minor(rng, e=round(rng.uniform(0, 0.97), 6))
+        el2, jde = gen_minor(rng, e=round(rng.uniform(0, 0.97), 6))
+        pairs.append((el1, el2, jde))
+    for el1, el2, jde in pairs:
+        n += 1; nontriv += 1
+        add(check_set_sequence(I, el1, el2, jde), ["Minor.set", list(el1), list(el2), jde],
+            "minorset %s %s %r" % (" ".join(repr(x) for x in el1), " ".join(repr(x) for x in el2), jde))
     stats = {"evaluations": n, "distinct_nontrivial": nontriv,
-             "rule": "7 planets x %d epochs in -2000..4000 (direction vs library vectors 0.02 deg, elongation vs Sun at epoch and at epoch-tau, range, Mercury/Venus maxima, Epoch unchanged); Pluto 1885-2099 (1e-4 deg, series re-evaluated); minor bodies q 0.1-30, e in [0,1] incl. 0.98/1.0 +-1e-9, any orientation, +-50 yr, plus a fixed grid + random sample of exactly parabolic bodies (e = 1.0, q 0.1-1.5, +-30 d) (1e-4 deg vs independent two-body propagation, elongation, switch-point continuity, _near_parabolic (v,r))" % (npl + 1),
+             "rule": "7 planets x %d epochs in -2000..4000 (direction vs library vectors 0.02 deg, elongation vs Sun at epoch and at epoch-tau, range, Mercury/Venus maxima, Epoch unchanged); Pluto 1885-2099 (1e-4 deg, series re-evaluated); minor bodies q 0.1-30, e in [0,1] incl. 0.98/1.0 +-1e-9, any orientation, +-50 yr, plus a fixed grid + random sample of exactly parabolic bodies (e = 1.0, q 0.1-1.5, +-30 d), a fixed far-from-perihelion grid (e = 1.0 x q 0.1..30 and 6 other eccentricities x q 0.1..0.3, t - T = +-1..49.9 years) and set()-after-construct call sequences compared bit for bit with a fresh object (1e-4 deg vs independent two-body propagation, elongation, switch-point continuity, _near_parabolic (v,r))" % (npl + 1),
              "samples": [{"input": ["Neptune", 2448976.5], "checked": "direction within 0.02 deg of Earth(t)->Neptune(t-tau); elongation vs Sun(t) [known finding] and Sun(t-tau)"}],
              "per_key_counts": per_key, "near_parabolic_no_convergence_refusals": stats_extra.get("no_convergence", 0),
              "near_parabolic_no_convergence_min_x": stats_extra.get("no_convergence_min_x"),
@@ -652,6 +722,8 @@ def replay(argv):
     elif kind in ("minor", "minorhelio"):
         el = tuple(float(x) for x in argv[1:7]); jde = float(argv[7])
         res = check_minor(I, el, jde, st) if kind == "minor" else check_minor_helio(I, el, jde)
+    elif kind == "minorset":
+        res = check_set_sequence(I, tuple(float(x) for x in argv[1:7]), tuple(float(x) for x in argv[7:13]), float(argv[13]))
     elif kind == "nearpar":
         res = check_near_parabolic(I, float(argv[1]), float(argv[2]), float(argv[3]), st)
     else:
